@@ -481,11 +481,19 @@ class Ctx:
         return len(conds)
 
 
-def explore(unit, max_paths=20000):
-    """Run `unit(ctx)` over all feasible paths.  Returns list of (ctx, outcome)."""
+class Budget(Exception):
+    pass
+
+
+def explore(unit, max_paths=20000, deadline=None, done=None):
+    """Run `unit(ctx)` over all feasible paths.  Returns list of (ctx, outcome).  `done` may be passed in so that the paths
+    explored before a budget ran out are kept by the caller."""
+    import time as _time
     work = [[]]
-    done = []
+    done = [] if done is None else done
     while work:
+        if deadline is not None and _time.time() > deadline:
+            raise Budget(f"unit time budget exhausted after {len(done)} paths ({len(work)} pending)")
         dec = work.pop()
         ctx = Ctx(dec)
         try:
